@@ -262,6 +262,26 @@ func (h *HostSvc) server() *jsonrpc2.Server {
 	return s
 }
 
+// errNoResult makes the scripted host answer with a message that has neither
+// result nor error ({"id":N,"jsonrpc":"2.0"}).
+var errNoResult = errors.New("verif:noresult")
+
+// scriptedHandler wraps the host's RPC server so that scripted behaviours can
+// produce replies a well-behaved server never sends.
+type scriptedHandler struct {
+	*jsonrpc2.Server
+}
+
+func (h scriptedHandler) Handle(ctx context.Context, req *jsonrpc2.Message) *jsonrpc2.Message {
+	resp := h.Server.Handle(ctx, req)
+	if resp != nil && resp.Response != nil && resp.Response.Error != nil && resp.Response.Error.Message == errNoResult.Error() {
+		return &jsonrpc2.Message{ID: req.ID, Version: jsonrpc2.Version}
+	}
+	return resp
+}
+
+func (h *HostSvc) handler() jsonrpc2.Handler { return scriptedHandler{h.server()} }
+
 // conn is one connection between an agent-side Remote and a pool-side Remote.
 type conn struct {
 	agentSide *jsonrpc2.Remote
